@@ -28,12 +28,15 @@ def stable_key(name):
 
 def load_contracts(src):
     import contracts.streams, contracts.binary, contracts.classes, contracts.prims, contracts.oracles, contracts.tables, contracts.bitstream  # noqa
-    for mod in ('wrappers', 'composites', 'adapters', 'lazy', 'exprs', 'containers', 'codegen', 'ksy', 'lemmas', 'entry'):
+    for mod in ('wrappers', 'adapters', 'lazy', 'exprs', 'containers', 'codegen', 'ksy', 'lemmas', 'entry'):
         try:
             __import__('contracts.' + mod)
         except ModuleNotFoundError as e:
             if ('contracts.' + mod) not in str(e):
                 raise
+    import contracts.composites as comp
+    if 'construct.core:Struct._parse' not in contract.REGISTRY:
+        comp.register_composites(src)
     import contracts.classes as cc
     gens = cc.generic_contracts(src)
     from contracts.prims import LOOPS
